@@ -4,7 +4,7 @@ EXPLANATION = ("Contracts on the share-or-copy decision: the Generation algebra 
                "test on a real one-object heap.")
 TRUSTED = []
 ASSUMPTIONS = [
-    "clone unit: deep_clone_str/data/array/closure/app, gc.alloc(Move(ExternFunction::clone)) and Userdata::deep_clone are ASSUMED to return new objects of the receiving heap (fresh); the visited map is opaque",
+    "clone unit: deep_clone_str/data/closure/app, deep_clone_ptr (visited map) and the element loop deep_clone_elems, gc.alloc(Move(ExternFunction::clone)) and Userdata::deep_clone are ASSUMED to return new objects of the receiving heap (fresh); the visited map is opaque",
     "Gc::get_type_info replaced by a non-interning stub in the coherence harness (hash maps are intractable for CBMC)",
     "termination is not proved by Kani",
 ]
@@ -37,6 +37,7 @@ def obligations(tier):
         v("Value::generation", "generation of a value is the generation of the heap object it points to; scalars: root", "vm/src/value.rs::Value::generation"),
         v("Cloner::force_full_clone", "afterwards the share policy generation is below every real generation", "vm/src/value.rs::Cloner::force_full_clone"),
         v("Cloner::deep_clone_inner", "a pointer is returned uncopied only if receiver_generation can contain its generation; otherwise the result is a new object of the receiving heap; scalars by value; policy unchanged", "vm/src/value.rs::Cloner::deep_clone_inner"),
+        v("Cloner::deep_clone_array", "the copy of an array is a new object of the receiving heap and every pointer-carrying element representation (String, Array, Unknown, Userdata) has its elements cloned; Thread arrays are refused", "vm/src/value.rs::Cloner::deep_clone_array"),
         dict(engine="verus", unit="reference", function="Reference::deep_clone", name="C13/reference/Reference_deep_clone", source="vm/src/reference.rs::<Reference as Userdata>::deep_clone",
              clause="a reference crossing heaps becomes a reference owned by the RECEIVING thread holding a copy of the content"),
         v("lemma_full_clone_copies_everything", "after force_full_clone no value of a real heap is ever shared (over the two contracts)", "lemma"),
